@@ -86,7 +86,7 @@ Proof.
   unfold string_to_pytype. destruct (f_ptype c).
   - exact I.
   - destruct (py_int s); exact I.
-  - exact I.
+  - destruct (CU.model.Dec.dec_parse s) as [d| |]; [destruct (CU.model.Dec.dec_str d)| |]; exact I.
   - destruct (strptime_outcomes (f_datefmt c) s) as [[d E]|[E|E]]; rewrite E; exact I.
 Qed.
 
